@@ -186,6 +186,8 @@ def gen(rng, tier):
         cases.append(reentrant_scenario(rng))
     for _ in range(500 if tier == "quick" else 12000):
         cases.append(K.rand_script_program(rng, rng.randrange(1, 6), rng.randrange(2, 16), cancellers=False))
+    # the exact type of a Deferred must not matter: a sample once more with trivial-subclass instances
+    cases += K.with_subclasses(cases, rng, 0.10 if tier == "quick" else 0.05)
     # Deferred debugging must not change anything observable
     cases += K.with_debug(cases, rng, 0.08 if tier == "quick" else 0.04)
     return cases
@@ -229,7 +231,7 @@ def corpus():
 
 def shrink(case):
     ops = case["ops"]
-    extra = {"debug": True} if case.get("debug") else {}
+    extra = {k: case[k] for k in ("debug", "cls") if k in case}
     for i in range(len(ops)):
         yield {"canc": case["canc"], "ops": ops[:i] + ops[i + 1:], **extra}
 
@@ -260,7 +262,7 @@ SPEC = Spec(
          "Deferreds waiting on each other, late callbacks, pauses on waiting Deferreds, unbalanced unpauses); 1 000 "
          "(15 000) random programs over 1-6 Deferreds, 2-20 operations, callback behaviours {value, None, Failure, "
          "Deferred d_i, raise (Exception subclasses and GeneratorExit / asyncio.CancelledError / SystemExit / "
-         "KeyboardInterrupt / a BaseException subclass), pass-through} on either or both sides.  700 (12 000) re-entrant scenarios and 500 (12 000) random programs whose callbacks run scripts of kernel operations (add to the running or to any other Deferred, callback / errback / pause / unpause / cancel), evaluated on the re-entrant kernel DeferredKR; 8% (4%) of all cases once more under defer.setDebugging(True).  non-trivial = at least one user callback ran; "
+         "KeyboardInterrupt / a BaseException subclass), pass-through} on either or both sides.  700 (12 000) re-entrant scenarios and 500 (12 000) random programs whose callbacks run scripts of kernel operations (add to the running or to any other Deferred, callback / errback / pause / unpause / cancel), evaluated on the re-entrant kernel DeferredKR; 10% (5%) of all cases once more with trivial Deferred-subclass instances, 8% (4%) under defer.setDebugging(True).  non-trivial = at least one user callback ran; "
          "distinct by (case, observation)",
     trusted=["hand-written kernel model coq/Lib/DeferredK.v (tied by this correspondence run only)",
              "callbacks are fixed behaviours or scripts of kernel operations followed by a fixed behaviour (re-entrant kernel "
